@@ -247,7 +247,20 @@ func (c *Ctx) c18Cyl(sides int, noTop, noBottom, uvs bool, radius, height float6
 	both := !noTop && !noBottom
 	cyl := primitives.Cylinder{Sides: sides, Height: height, Radius: radius, NoTop: noTop, NoBottom: noBottom}
 	if uvs {
-		cyl.UVs = c18CylUVs()
+		// UV options never influence indices / positions / normals: all parts, or (rotating) a single part only
+		u := c18CylUVs()
+		switch c.Rng.Intn(4) {
+		case 1:
+			u = &primitives.CylinderUVs{Top: u.Top}
+			c.Note("uvs.top-only")
+		case 2:
+			u = &primitives.CylinderUVs{Bottom: u.Bottom}
+			c.Note("uvs.bottom-only")
+		case 3:
+			u = &primitives.CylinderUVs{Side: u.Side}
+			c.Note("uvs.side-only")
+		}
+		cyl.UVs = u
 		c.Note("uvs")
 	}
 	if noTop {
@@ -277,8 +290,24 @@ func (c *Ctx) c18Box(w, h, d float64, uvs bool) {
 		build: func() modeling.Mesh { return cube.UnweldedQuads() }})
 }
 
+// the node wrappers with all inputs unset (their documented defaults) and UnitCube: same ops, default parameters
+func (c *Ctx) c18Defaults() {
+	c.Note("node-defaults")
+	c.c18Emit(c18Case{kind: "sphere", params: "10 10", scalars: []float64{0.5}, size: 0.5, admit: true, withPos: true, withNrm: true, solid: true,
+		build: func() modeling.Mesh { m, _ := primitives.UvSphereNodeData{}.Process(); return m }})
+	c.c18Emit(c18Case{kind: "hemi", params: "20 20", scalars: []float64{0.5}, size: 0.5, admit: true, withPos: true, solid: true,
+		build: func() modeling.Mesh { m, _ := primitives.HemisphereNodeData{}.Process(); return m }})
+	c.c18Emit(c18Case{kind: "cyl", params: "20 0 0", scalars: []float64{0.5, 1}, size: 1, admit: true, withPos: true, withNrm: true, solid: true,
+		build: func() modeling.Mesh { m, _ := primitives.CylinderNodeData{}.Process(); return m }})
+	c.c18Emit(c18Case{kind: "cubeq", scalars: []float64{1, 1, 1}, size: 1, admit: true, withPos: true, withNrm: true, solid: true,
+		build: func() modeling.Mesh { m, _ := primitives.CubeNodeData{}.Process(); return m }})
+	c.c18Emit(c18Case{kind: "cubew", scalars: []float64{1, 1, 1}, size: 1, admit: true, withPos: true, withNrm: true, solid: true,
+		build: func() modeling.Mesh { return primitives.UnitCube() }})
+}
+
 func runC18(c *Ctx) {
 	thorough := c.Tier == "thorough"
+	c.c18Defaults()
 	lim := 10
 	if thorough {
 		lim = 24
